@@ -44,6 +44,7 @@ const (
 var opNames = [...]string{"start", "yield", "lock", "rlock", "unlock", "runlock", "condwait", "condrelock", "join",
 	"read", "write", "dial", "accept", "close", "deliver", "sleep", "custom", "exit"}
 
+//go:norace
 func (k OpKind) String() string { return opNames[k] }
 
 const (
@@ -73,8 +74,11 @@ type Task struct {
 	daemon  bool
 }
 
+//go:norace
 func (t *Task) Done() bool { return atomic.LoadInt32(&t.state) == stDone }
-func (t *Task) Sim() *Sim  { return t.sim }
+
+//go:norace
+func (t *Task) Sim() *Sim { return t.sim }
 
 // Event is one entry of the run's history.
 type Event struct {
@@ -105,6 +109,7 @@ type Sim struct {
 	tasks    []*Task
 	arrive   chan struct{}
 	rootDone bool
+	rootCh   chan struct{}
 	start    time.Time
 
 	// strategy
@@ -125,8 +130,8 @@ type Sim struct {
 
 	failures     []Failure
 	invariants   []func() error
-	Probes       map[string]int
-	Faults       map[string]int
+	Probes       *Counters
+	Faults       *Counters
 	Switches     int
 	OracleN      int
 	objN         int
@@ -145,12 +150,14 @@ type Sim struct {
 }
 
 var (
-	registry   sync.Map // goid -> *Task
+	regMu      sync.Mutex
+	regTab     []*Task // live tasks of the process (few); plain slice on purpose, see Counters
 	activeSims int32
 	genCounter uint64
 	curSim     atomic.Pointer[Sim]
 )
 
+//go:norace
 func goid() int64 {
 	var buf [64]byte
 	n := runtime.Stack(buf[:], false)
@@ -163,40 +170,79 @@ func goid() int64 {
 
 // Current returns the calling goroutine's task, or nil when no simulation is
 // active or the goroutine is not part of it.
+//
+//go:norace
 func Current() *Task {
+	raceDisable()
+	defer raceEnable()
 	if atomic.LoadInt32(&activeSims) == 0 {
 		return nil
 	}
-	if v, ok := registry.Load(goid()); ok {
-		return v.(*Task)
+	return regLookup(goid())
+}
+
+//go:norace
+func regLookup(id int64) *Task {
+	regMu.Lock()
+	defer regMu.Unlock()
+	for _, t := range regTab {
+		if t.goid == id {
+			return t
+		}
 	}
 	return nil
+}
+
+//go:norace
+func regStore(t *Task) {
+	regMu.Lock()
+	regTab = append(regTab, t)
+	regMu.Unlock()
+}
+
+//go:norace
+func regDelete(t *Task) {
+	regMu.Lock()
+	for i, x := range regTab {
+		if x == t {
+			regTab[i] = regTab[len(regTab)-1]
+			regTab[len(regTab)-1] = nil
+			regTab = regTab[:len(regTab)-1]
+			break
+		}
+	}
+	regMu.Unlock()
 }
 
 // CurrentOrLazy is Current, but a goroutine the generator did not see being
 // spawned (timer callbacks, library goroutines) that reaches a sim op inside
 // an active simulation is registered on the spot.
+//
+//go:norace
 func CurrentOrLazy() *Task {
+	raceDisable()
+	defer raceEnable()
 	if atomic.LoadInt32(&activeSims) == 0 {
 		return nil
 	}
 	id := goid()
-	if v, ok := registry.Load(id); ok {
-		return v.(*Task)
+	if t := regLookup(id); t != nil {
+		return t
 	}
 	s := curSim.Load()
 	if s == nil || s.killing {
 		return nil
 	}
-	s.mu.Lock()
+	s.lock()
 	s.lazyN++
-	t := &Task{sim: s, Name: fmt.Sprintf("z%03d", s.lazyN), Entry: "lazy", goid: id, wake: make(chan struct{}, 1), daemon: true}
+	t := &Task{sim: s, Name: "z" + pad3(s.lazyN), Entry: "lazy", goid: id, wake: make(chan struct{}, 1), daemon: true}
 	s.tasks = append(s.tasks, t)
-	s.mu.Unlock()
-	registry.Store(id, t)
+	s.unlock()
+	regStore(t)
 	return t
 }
 
+//go:norace
 func fnv64(h uint64, v uint64) uint64 {
 	for i := 0; i < 8; i++ {
 		h ^= v & 0xff
@@ -206,6 +252,7 @@ func fnv64(h uint64, v uint64) uint64 {
 	return h
 }
 
+//go:norace
 func fnvs(h uint64, s string) uint64 {
 	for i := 0; i < len(s); i++ {
 		h ^= uint64(s[i])
@@ -215,33 +262,57 @@ func fnvs(h uint64, s string) uint64 {
 }
 
 // NewObj hands out a per-run object id (first-use order, deterministic).
+//
+//go:norace
 func (s *Sim) NewObj() int {
-	s.mu.Lock()
+	s.lock()
 	s.objN++
 	n := s.objN
-	s.mu.Unlock()
+	s.unlock()
 	return n
 }
 
 // Gen is the run generation, used by sim objects to reset state left over by
 // an earlier run in the same process.
+//
+//go:norace
 func (s *Sim) Gen() uint64 { return s.gen }
 
 // Lock/Unlock expose the bookkeeping mutex to simsync/simnet.
-func (s *Sim) BkLock()   { s.mu.Lock() }
-func (s *Sim) BkUnlock() { s.mu.Unlock() }
+//
+//go:norace
+func (s *Sim) BkLock() { s.lock() }
+
+//go:norace
+func (s *Sim) BkUnlock() { s.unlock() }
+
+// lock/unlock guard the simulator's own bookkeeping. The race detector must not
+// see this mutex (nor the park/wake channels): every sim op takes it, so it
+// would order all tasks and hide BFE's own missing synchronisation. Sync events
+// are therefore ignored while it is held (runtime.RaceDisable nests).
+//
+//go:norace
+func (s *Sim) lock() { raceDisable(); s.mu.Lock() }
+
+//go:norace
+func (s *Sim) unlock() { s.mu.Unlock(); raceEnable() }
 
 // Now is simulated time since the start of the run.
+//
+//go:norace
 func (s *Sim) Now() time.Duration { return time.Since(s.start) }
 
 // Emit appends an event. It never draws from the tape and never reads a real clock.
+//
+//go:norace
 func (s *Sim) Emit(task *Task, kind string, obj int, detail string) uint64 {
-	s.mu.Lock()
+	s.lock()
 	seq := s.emitLocked(task, kind, obj, detail)
-	s.mu.Unlock()
+	s.unlock()
 	return seq
 }
 
+//go:norace
 func (s *Sim) emitLocked(task *Task, kind string, obj int, detail string) uint64 {
 	s.seq++
 	name := ""
@@ -263,94 +334,123 @@ func (s *Sim) emitLocked(task *Task, kind string, obj int, detail string) uint64
 }
 
 // Seq returns the current global event sequence number.
-func (s *Sim) Seq() uint64 { s.mu.Lock(); defer s.mu.Unlock(); return s.seq }
+//
+//go:norace
+func (s *Sim) Seq() uint64 { s.lock(); defer s.unlock(); return s.seq }
 
 // Note records a harness-level observation in the event log.
+//
+//go:norace
 func (s *Sim) Note(kind, detail string) uint64 { return s.Emit(Current(), kind, 0, detail) }
 
 // Probe counts that a rare condition was reached.
+//
+//go:norace
 func (s *Sim) Probe(name string) {
-	s.mu.Lock()
-	s.Probes[name]++
-	s.mu.Unlock()
+	s.lock()
+	s.Probes.Add(name, 1)
+	s.unlock()
 }
 
 // Fault counts that a fault of the given kind actually fired.
+//
+//go:norace
 func (s *Sim) Fault(kind string) {
-	s.mu.Lock()
-	s.Faults[kind]++
+	s.lock()
+	s.Faults.Add(kind, 1)
 	s.emitLocked(nil, "fault", 0, kind)
-	s.mu.Unlock()
+	s.unlock()
 }
 
 // Checked counts oracle evaluations.
-func (s *Sim) Checked(n int) { s.mu.Lock(); s.OracleN += n; s.mu.Unlock() }
+//
+//go:norace
+func (s *Sim) Checked(n int) { s.lock(); s.OracleN += n; s.unlock() }
 
 // Fail records a violated clause. The run continues until its root returns;
 // harness loops should poll Failed().
+//
+//go:norace
 func (s *Sim) Fail(clause, format string, args ...interface{}) {
 	s.FailK(clause, "", format, args...)
 }
 
 // FailK is Fail with a finding key that identifies the specific defect (used
 // to match entries of known_findings.jsonl and to keep shrinking on the same bug).
+//
+//go:norace
 func (s *Sim) FailK(clause, key, format string, args ...interface{}) {
 	msg := fmt.Sprintf(format, args...)
-	s.mu.Lock()
+	s.lock()
 	s.failures = append(s.failures, Failure{clause, key, msg, s.Step, s.seq})
 	s.emitLocked(nil, "FAIL", 0, clause+": "+msg)
-	s.mu.Unlock()
+	s.unlock()
 }
 
-func (s *Sim) Failed() bool { s.mu.Lock(); defer s.mu.Unlock(); return len(s.failures) > 0 }
+//go:norace
+func (s *Sim) Failed() bool { s.lock(); defer s.unlock(); return len(s.failures) > 0 }
+
+//go:norace
 func (s *Sim) Failures() []Failure {
-	s.mu.Lock()
-	defer s.mu.Unlock()
+	s.lock()
+	defer s.unlock()
 	return append([]Failure(nil), s.failures...)
 }
-func (s *Sim) TraceHash() uint64    { return s.hash }
+
+//go:norace
+func (s *Sim) TraceHash() uint64 { return s.hash }
+
+//go:norace
 func (s *Sim) ScheduleHash() uint64 { return s.schedHash }
+
+//go:norace
 func (s *Sim) Tasks() []*Task {
-	s.mu.Lock()
-	defer s.mu.Unlock()
+	s.lock()
+	defer s.unlock()
 	return append([]*Task(nil), s.tasks...)
 }
 
 // Invariant registers a predicate evaluated by the scheduler after every step,
 // with every task parked.
+//
+//go:norace
 func (s *Sim) Invariant(f func() error) { s.invariants = append(s.invariants, f) }
 
+//go:norace
 func (s *Sim) newTask(parent *Task, entry string, arg interface{}) *Task {
 	t := &Task{sim: s, Entry: entry, Arg: arg, wake: make(chan struct{}, 1)}
-	s.mu.Lock()
+	s.lock()
 	if parent == nil {
 		t.Name = "r"
 	} else {
 		parent.spawnN++
-		t.Name = fmt.Sprintf("%s.%02d", parent.Name, parent.spawnN)
+		t.Name = parent.Name + "." + pad3(parent.spawnN)[1:]
 	}
 	t.state = stParked
 	t.op = OpStart
 	s.tasks = append(s.tasks, t)
-	s.mu.Unlock()
+	s.unlock()
 	return t
 }
 
+//go:norace
 func (s *Sim) startTask(t *Task, fn func()) {
 	go func() {
+		raceDisable()
 		t.goid = goid()
-		registry.Store(t.goid, t)
+		regStore(t)
 		defer func() {
-			registry.Delete(t.goid)
+			raceDisable()
+			regDelete(t)
 			if r := recover(); r != nil && !t.killed.Load() {
 				s.Fail("panic", "task %s (%s) panicked: %v\n%s", t.Name, t.Entry, r, trimStack(debug.Stack()))
 			}
-			s.mu.Lock()
+			s.lock()
 			atomic.StoreInt32(&t.state, stDone)
 			if !s.killing {
 				s.emitLocked(t, "exit", 0, "")
 			}
-			s.mu.Unlock()
+			s.unlock()
 			s.signal()
 		}()
 		s.signal()
@@ -359,10 +459,12 @@ func (s *Sim) startTask(t *Task, fn func()) {
 			return
 		}
 		atomic.StoreInt32(&t.state, stRunning)
+		raceEnable()
 		fn()
 	}()
 }
 
+//go:norace
 func trimStack(b []byte) string {
 	if len(b) > 6000 {
 		b = b[:6000]
@@ -370,6 +472,7 @@ func trimStack(b []byte) string {
 	return string(b)
 }
 
+//go:norace
 func (s *Sim) signal() {
 	select {
 	case s.arrive <- struct{}{}:
@@ -379,9 +482,13 @@ func (s *Sim) signal() {
 
 // Go starts fn as a new task of the current simulation (or as a plain
 // goroutine when the caller is not part of one).
+//
+//go:norace
 func Go(fn func()) *Task { return GoNamed("", nil, fn) }
 
 // GoNamed is Go with an entry description used by oracles.
+//
+//go:norace
 func GoNamed(entry string, arg interface{}, fn func()) *Task {
 	p := CurrentOrLazy()
 	if p == nil || p.killed.Load() {
@@ -397,6 +504,7 @@ func GoNamed(entry string, arg interface{}, fn func()) *Task {
 	return t
 }
 
+//go:norace
 func funcName(f interface{}) string {
 	pc := reflect.ValueOf(f).Pointer()
 	if fn := runtime.FuncForPC(pc); fn != nil {
@@ -407,6 +515,8 @@ func funcName(f interface{}) string {
 
 // GoCall is what `go f(args...)` is rewritten to: f and args are evaluated at
 // the go statement, the call happens in a new task.
+//
+//go:norace
 func GoCall(f interface{}, args ...interface{}) {
 	fv := reflect.ValueOf(f)
 	ft := fv.Type()
@@ -436,6 +546,8 @@ func GoCall(f interface{}, args ...interface{}) {
 }
 
 // GoCallSlice is GoCall for `go f(a, rest...)`.
+//
+//go:norace
 func GoCallSlice(f interface{}, args ...interface{}) {
 	fv := reflect.ValueOf(f)
 	in := make([]reflect.Value, len(args))
@@ -452,26 +564,33 @@ func GoCallSlice(f interface{}, args ...interface{}) {
 // Park blocks the calling task at a sim op until the scheduler selects it.
 // enabled (nil = always) is evaluated by the scheduler at quiescence; grant
 // (may be nil) is run by the scheduler when it selects the task.
+//
+//go:norace
 func (t *Task) Park(kind OpKind, obj int, enabled func() bool, grant func()) {
+	raceDisable()
 	if t.killed.Load() {
+		raceEnable()
 		t.die()
 		return
 	}
 	s := t.sim
-	s.mu.Lock()
+	s.lock()
 	t.op, t.obj, t.enabled, t.grant = kind, obj, enabled, grant
 	atomic.StoreInt32(&t.state, stParked)
-	s.mu.Unlock()
+	s.unlock()
 	s.signal()
 	<-t.wake
 	if t.killed.Load() {
+		raceEnable()
 		t.die()
 		return
 	}
 	atomic.StoreInt32(&t.state, stRunning)
 	t.Steps++
+	raceEnable()
 }
 
+//go:norace
 func (t *Task) die() {
 	if t.exiting {
 		return
@@ -482,9 +601,13 @@ func (t *Task) die() {
 
 // Killed reports that the run is over and this task is being torn down: sim
 // ops must return at once without parking.
+//
+//go:norace
 func (t *Task) Killed() bool { return t.killed.Load() }
 
 // Yield is a scheduling point for harness code.
+//
+//go:norace
 func Yield() {
 	if t := Current(); t != nil {
 		t.Park(OpYield, 0, nil, nil)
@@ -492,6 +615,8 @@ func Yield() {
 }
 
 // Join parks until all given tasks are done.
+//
+//go:norace
 func Join(ts ...*Task) {
 	t := Current()
 	if t == nil {
@@ -508,6 +633,8 @@ func Join(ts ...*Task) {
 }
 
 // WaitUntil parks until pred holds (evaluated at quiescence).
+//
+//go:norace
 func WaitUntil(pred func() bool) {
 	t := Current()
 	if t == nil {
@@ -518,6 +645,8 @@ func WaitUntil(pred func() bool) {
 
 // Sleep sleeps in simulated time; it is a park point on return, so the wake-up
 // order of simultaneous sleepers is a scheduler decision.
+//
+//go:norace
 func Sleep(d time.Duration) {
 	time.Sleep(d)
 	if t := Current(); t != nil {
@@ -525,16 +654,41 @@ func Sleep(d time.Duration) {
 	}
 }
 
+// parkedSummary lists the live tasks and what they are parked at.
+//
+//go:norace
+func (s *Sim) parkedSummary() string {
+	out := ""
+	for _, t := range s.tasks {
+		st := atomic.LoadInt32(&t.state)
+		if st == stDone {
+			continue
+		}
+		if st == stParked {
+			out += fmt.Sprintf("[%s %s parked at %s obj=%d steps=%d] ", t.Name, t.Entry, t.op, t.obj, t.Steps)
+		} else {
+			out += fmt.Sprintf("[%s %s blocked outside the simulator (channel/sleep)] ", t.Name, t.Entry)
+		}
+	}
+	return out
+}
+
 type byName []*Task
 
-func (a byName) Len() int           { return len(a) }
-func (a byName) Swap(i, j int)      { a[i], a[j] = a[j], a[i] }
+//go:norace
+func (a byName) Len() int { return len(a) }
+
+//go:norace
+func (a byName) Swap(i, j int) { a[i], a[j] = a[j], a[i] }
+
+//go:norace
 func (a byName) Less(i, j int) bool { return a[i].Name < a[j].Name }
 
+//go:norace
 func (s *Sim) enabledTasks() (en []*Task, parked int, live int) {
-	s.mu.Lock()
+	s.lock()
 	ts := append([]*Task(nil), s.tasks...)
-	s.mu.Unlock()
+	s.unlock()
 	for _, t := range ts {
 		st := atomic.LoadInt32(&t.state)
 		if st == stDone {
@@ -553,6 +707,7 @@ func (s *Sim) enabledTasks() (en []*Task, parked int, live int) {
 	return
 }
 
+//go:norace
 func (s *Sim) choose(en []*Task) *Task {
 	// put the last-run task first so that value 0 means "keep running"
 	li := -1
@@ -605,14 +760,21 @@ type Options struct {
 	IdleLimit time.Duration
 	KeepLog   bool
 	LogCap    int
+	// StuckClause / MaxStepsClause: when set, a run that ends because nothing
+	// can ever run again (deadlock, lost wake-up) or because the step budget
+	// was exhausted (livelock) is a violation of that clause.
+	StuckClause    string
+	MaxStepsClause string
 }
 
 type bubbleRunner func(f func())
 
 // RunBubble executes root inside a fresh synctest bubble under the scheduler.
 // tb is used only to satisfy synctest.Test.
+//
+//go:norace
 func RunBubble(run bubbleRunner, tape *Tape, seed uint64, opt Options, root func(s *Sim)) (res Result) {
-	s := &Sim{Tape: tape, Seed: seed, Probes: map[string]int{}, Faults: map[string]int{}, Data: map[string]interface{}{}}
+	s := &Sim{Tape: tape, Seed: seed, Probes: &Counters{}, Faults: &Counters{}, Data: map[string]interface{}{}}
 	s.MaxSteps = opt.MaxSteps
 	if s.MaxSteps == 0 {
 		s.MaxSteps = 20000
@@ -645,8 +807,63 @@ func RunBubble(run bubbleRunner, tape *Tape, seed uint64, opt Options, root func
 	}()
 	atomic.AddInt32(&activeSims, -1)
 	curSim.Store(nil)
+	if s.Outcome == "stuck" && opt.StuckClause != "" && len(s.failures) == 0 {
+		s.failures = append(s.failures, Failure{Clause: opt.StuckClause, Key: "stuck", Msg: "no task can ever run again: " + s.parkedSummary(), Step: s.Step})
+	}
+	if s.Outcome == "max_steps" && opt.MaxStepsClause != "" && len(s.failures) == 0 {
+		s.failures = append(s.failures, Failure{Clause: opt.MaxStepsClause, Key: "max-steps", Msg: fmt.Sprintf("step budget %d exhausted: %s", s.MaxSteps, s.parkedSummary()), Step: s.Step})
+	}
 	res = Result{Seed: seed, Outcome: s.Outcome, Steps: s.Step, Switches: s.Switches, SimTime: s.simEnd, TraceHash: s.hash,
-		ScheduleHash: s.schedHash, Failures: s.failures, Probes: s.Probes, Faults: s.Faults, OracleChecks: s.OracleN,
+		ScheduleHash: s.schedHash, Failures: s.failures, Probes: s.Probes.Map(), Faults: s.Faults.Map(), OracleChecks: s.OracleN,
 		Tasks: len(s.tasks), Tape: tape.Values(), Labels: tape.Labels, Log: s.Log, StateHashes: s.stateHashes, Sample: s.Sample}
 	return
+}
+
+// Counters is a tiny name->count table that is not a Go map: map operations are
+// instrumented by the race runtime itself, and the simulator's bookkeeping must
+// stay invisible to the detector (see lock()).
+type Counters struct {
+	names []string
+	vals  []int
+}
+
+//go:norace
+func (c *Counters) Add(name string, n int) {
+	for i, x := range c.names {
+		if x == name {
+			c.vals[i] += n
+			return
+		}
+	}
+	c.names = append(c.names, name)
+	c.vals = append(c.vals, n)
+}
+
+//go:norace
+func (c *Counters) Get(name string) int {
+	for i, x := range c.names {
+		if x == name {
+			return c.vals[i]
+		}
+	}
+	return 0
+}
+
+//go:norace
+func (c *Counters) Map() map[string]int {
+	m := make(map[string]int, len(c.names))
+	for i, x := range c.names {
+		m[x] = c.vals[i]
+	}
+	return m
+}
+
+// pad3 formats n as at least three digits without fmt (fmt's printer pool must
+// not be used while sync events are hidden from the race detector).
+func pad3(n int) string {
+	x := strconv.Itoa(n)
+	for len(x) < 3 {
+		x = "0" + x
+	}
+	return x
 }
